@@ -172,6 +172,26 @@ CHECKS = {
          "replacement (9 doc classes) changes only the docstring.",
          "Trusted: CPython compiling the generator's canonical text as reference function; token-based source comparison.",
          "DESIGN.md section 2 C20"),
+ "C18": ("model_checking",
+         "explicit-state BFS over IOSpec lifecycle histories on two models; reference bookkeeping by value identity as oracle",
+         "Root: model M1 (space A with a scalar and a non-scalar cells, sub B(A)) and model M2. Alphabet: new_pandas on 6 slots + "
+         "clashing names (csv; thorough: excel sheets, module, alias spellings of a path), plain assignment / re-binding, deletion "
+         "of references, update_pandas(old, None|fresh|other), add/remove base, delete space, close. BFS depth 3 (thorough 4 csv / 3 "
+         "full), states merged by canonical session state with a merge audit. Every state: both views of the model's specs "
+         "(model.iospecs and the IO manager) == specs whose value is bound to >= 1 reference (by object identity); rejected creations "
+         "leave nothing; closed models leave nothing; no two specs share a location; self-checks; write/read of every distinct IO "
+         "configuration gives equal values.",
+         "Trusted: pandas equality, the harness's identity-based reference model. update_module / absolute paths / new_excel_range not in the alphabet.",
+         "DESIGN.md section 2 C18"),
+ "C19": ("model_checking",
+         "explicit-state BFS over registry histories (new_model / read_model / rename / close / edits) with handles to every model",
+         "Alphabet: new_model(None|X|Y|X_BAK1), read_model of a saved model (plain, name=, two corrupted trees failing midway), "
+         "rename(to, rename_old in {F,T}), close, edits, cross-model reference, query; <=3 (4) models per history; depth 4 (thorough 5). "
+         "Every state: mx.get_models() maps exactly each open handle's current name to it, names unique, nothing dropped on "
+         "collisions (backup suffix), close removes exactly that model, descriptions of untouched models unchanged, values of models "
+         "without a reference into the edited one unchanged.",
+         "Trusted: description extractor; namer counters are part of the canonical state. A refused rename is accepted as either no-op or backup-rename.",
+         "DESIGN.md section 2 C19"),
 }
 NOT_BUILT = {}
 
